@@ -122,7 +122,7 @@ def main():
             distinct.add(str(scn["ops"])[:3000])
             cglib.compare_model(ck, scn, impl, model, "C13", fields=("new", "save"))
             if not (impl and isinstance(impl[-1], dict) and "exc" in impl[-1] and "tb" in impl[-1]):
-                spec_check(ck, scn, impl)
+                common.guarded(ck, "C13-oracle", {"ops": scn["ops"]}, spec_check, ck, scn, impl)
         ck.sample({"scenario_ops": scns[0]["ops"][:3], "n_ops": len(scns[0]["ops"])})
         ck.cov.update({"distinct_nontrivial": len(distinct), "programs": len(scns),
                        "rule": "generated covergroup populations (classes, parameterised variants, up to 5 instances, all bin kinds, crosses, at_least/weight options) with get_coverage_report_model / get_coverage_report(details=True) / write_coverage_db + XML read-back at random points of the sample history and at its end; every scenario is non-trivial (contains at least one report call after samples)",
@@ -138,4 +138,4 @@ def main():
 
 
 if __name__ == "__main__":
-    main()
+    common.run_main(main)
